@@ -31,7 +31,9 @@ class Shadow:
         self.deep_groups = 0.1
         # targeted scenarios (act_special): probability per act() step and relative weights; a property check raises what it is about
         self.special = 0.08
-        self.weights = {'late-unschedule': 1.0, 'orphan': 1.0, 'unschedule-orphan': 2.0, 'late-resources': 1.5, 'jp-cancel-path': 1.0}
+        self.weights = {'late-unschedule': 1.0, 'orphan': 1.0, 'unschedule-orphan': 2.0, 'late-resources': 1.5, 'jp-cancel-path': 1.0,
+                        'late-schedule': 1.0, 'dead-instance-attempt': 1.0, 'compact-cycle': 1.0}
+        self.abs_in_update = 0.2       # share of in-update parents a bunch names by ABSOLUTE id (the legacy `parent_ids` form)
         self.ops: List[str] = []
         self.tags: List[str] = []
         self.date = 0
@@ -135,8 +137,12 @@ class Shadow:
             ic = rng.choice([0, 0, 0, 1, 2])
             cores = rng.choice(JP_CORES if ic == 2 else POOL_CORES)
             ar = 1 if rng.random() < 0.2 else 0
-            specs.append(f'{k};{",".join(map(str, absp))};{",".join(map(str, relp))};{gs};{ar};{cores};{ic}')
             parents = absp + [u['start_job'] + p - 1 for p in relp]
+            # some earlier jobs of the same update are named by absolute id (what the legacy `parent_ids` key does, also in update 1)
+            moved = [p for p in relp if rng.random() < self.abs_in_update]
+            relp = [p for p in relp if p not in moved]
+            absp = sorted(absp + [u['start_job'] + p - 1 for p in moved])
+            specs.append(f'{k};{",".join(map(str, absp))};{",".join(map(str, relp))};{gs};{ar};{cores};{ic}')
             self.jobs[(b, jid)] = {'update': u['id'], 'group': g, 'parents': parents, 'ar': ar, 'cores': cores, 'ic': ic,
                                    'state': 'Ready' if (u['id'] == 1 and not parents) else 'Pending', 'attempt': None, 'inst': None,
                                    'inserted': False, 'done_parents': 0}
@@ -228,7 +234,15 @@ class Shadow:
         late-resources     resources of an attempt are registered after it already has billed time: job_started lost and job_complete
                            first, or a heartbeat (billing update) before add_attempt_resources
         jp-cancel-path     job-private path: pending instance -> creating -> the job's group is cancelled (a single cancelled ancestor) ->
-                           instance activates -> schedule_job for the Creating job"""
+                           instance activates -> schedule_job for the Creating job
+        late-schedule      driver.job.schedule_job posts the job to the worker BEFORE it calls the procedure: a fast job reports started and
+                           complete first, then `CALL schedule_job` arrives with the SAME attempt id for the finished job (instance still
+                           active); likewise after the canceller unscheduled that attempt of a cancelled job
+        dead-instance-attempt  an attempt is recorded for the first time on an instance that is already inactive / deleted: the job was posted,
+                           the worker was preempted, then `CALL schedule_job`; or a late job_started / job_complete of a dead worker carrying an
+                           attempt id the database has never seen
+        compact-cycle      billing heartbeat for a running, started job with registered resources, then the compaction loops: the same
+                           (billing project, user, resource) key is compacted again and again with usage in between"""
         rng = self.rng
         jobs = [(k, J) for k, J in self.jobs.items() if J['inserted']]
         running = [(k, J) for k, J in jobs if J['state'] == 'Running' and J['attempt'] is not None]
@@ -248,6 +262,19 @@ class Shadow:
               and not self.batches[k[0]]['cancelled'] and not self.batches[k[0]]['deleted']]
         if jp:
             cands['jp-cancel-path'] = jp
+        late = [(k, J) for k, J in done if self.instances.get(J['last'][1], {}).get('state') == 'active' and not self.job_cancelled(k[0], J)]
+        late += [(k, J) for k, J in jobs if J.get('unsched') and J['state'] == 'Ready' and self.job_cancelled(k[0], J)
+                 and self.instances.get(J['unsched'][1], {}).get('state') == 'active']
+        if late:
+            cands['late-schedule'] = late
+        dead = [n for n, i in self.instances.items() if i['state'] in ('inactive', 'deleted') and i['pool']]
+        vis_ready = [(k, J) for k, J in jobs if J['state'] == 'Ready' and J['ic'] != 2 and self.scheduler_visible(k[0], J)
+                     and not self.job_cancelled(k[0], J)]
+        if dead and vis_ready:
+            cands['dead-instance-attempt'] = vis_ready
+        billable = [(k, J) for k, J in running if J.get('res') == J['attempt']]
+        if billable:
+            cands['compact-cycle'] = billable
         names = [n for n in cands if self.weights.get(n, 0) > 0]
         if not names:
             return False
@@ -288,6 +315,35 @@ class Shadow:
                 self.emit(f'heartbeat {ts} {d} {b}:{j}:{a}', 'heartbeat', replayable=True)
             self.emit(line, 'addResources:after-billed-time', replayable=True)
             J['res'] = a
+        elif name == 'late-schedule':
+            if J['state'] in TERMINAL:
+                a, inst = J['last']
+                self.emit(f'schedule {b} {j} {a} {inst}', 'schedule:after-complete-same-attempt')
+            else:
+                a, inst = J.pop('unsched')
+                self.emit(f'schedule {b} {j} {a} {inst}', 'schedule:after-unschedule-same-attempt')
+        elif name == 'dead-instance-attempt':
+            inst = rng.choice([n for n, i in self.instances.items() if i['state'] in ('inactive', 'deleted') and i['pool']])
+            a = self.next_att
+            self.next_att += 1
+            form = rng.random()
+            if form < 0.5:
+                self.emit(f'schedule {b} {j} {a} {inst}', 'schedule:on-dead-instance')
+            elif form < 0.75:
+                self.emit(f'started {b} {j} {a} {inst} {ts} {d}', 'started:from-dead-instance')
+            else:
+                st = rng.choice(['Success', 'Failed', 'Error'])
+                self.emit(f'complete {b} {j} {a} {inst} {st} {ts - 20} {ts} completed {d}', 'complete:from-dead-instance')
+                self.finish(b, j, st)
+        elif name == 'compact-cycle':
+            a, inst = J['attempt'], J['inst']
+            if J.get('started') != a:
+                self.emit(f'started {b} {j} {a} {inst} {ts - rng.choice([5, 20])} {d}', 'started', replayable=True)
+                J['started'] = a
+            for _ in range(rng.choice([1, 2, 2, 3])):
+                t2 = self.tick()
+                self.emit(f'heartbeat {t2} {self.date} {b}:{j}:{a}', 'heartbeat', replayable=True)
+                self.emit('compact', 'compact:after-usage')
         elif name == 'jp-cancel-path':
             inst = self.new_instance(False, activate=False)
             a = self.next_att
@@ -416,6 +472,7 @@ class Shadow:
                 elif c:
                     (b, j), J = rng.choice(c)
                     self.emit(f'unschedule {b} {j} {J["attempt"]} {J["inst"]} {ts} cancelled {d}', 'unschedule:cancelled', replayable=True)
+                    J['unsched'] = (J['attempt'], J['inst'])
                     J.update(state='Ready', attempt=None)
         elif 0.77 <= r < 0.86:
             inst = self.pick_instance(states=('active', 'pending'))
